@@ -994,6 +994,41 @@ def z0(spec):
         def compute_partials(self, inputs, J):
             J["c", "b"] = np.sin(inputs["g"]) * np.ones(3)
 
+    class LinSolve(om.ImplicitComponent):
+        """A x = b with an LU that is refreshed in linearize() (the pattern OAS's SolveMatrix uses).
+        Stock om.LinearSystemComp is NOT used here: it keeps the LU of the last solve_nonlinear for
+        solve_linear, i.e. it has the very staleness defect that was repaired in OAS's FEM (F4), and
+        would make the control model fail for a reason that is neither plumbing nor OAS."""
+
+        def setup(self):
+            self.add_input("A", np.eye(3))
+            self.add_input("b", np.ones(3))
+            self.add_output("x", np.ones(3))
+            self.declare_partials("x", "A", rows=np.repeat(np.arange(3), 3), cols=np.arange(9))
+            self.declare_partials("x", "b", rows=np.arange(3), cols=np.arange(3), val=-1.0)
+            self.declare_partials("x", "x")
+
+        def apply_nonlinear(self, inputs, outputs, residuals):
+            residuals["x"] = inputs["A"].dot(outputs["x"]) - inputs["b"]
+
+        def solve_nonlinear(self, inputs, outputs):
+            outputs["x"] = np.linalg.solve(inputs["A"], inputs["b"])
+
+        def linearize(self, inputs, outputs, J):
+            import scipy.linalg as sl
+
+            J["x", "A"] = np.tile(outputs["x"], 3)
+            J["x", "x"] = inputs["A"]
+            self._lu = sl.lu_factor(inputs["A"])
+
+        def solve_linear(self, d_outputs, d_residuals, mode):
+            import scipy.linalg as sl
+
+            if mode == "fwd":
+                d_outputs["x"] = sl.lu_solve(self._lu, d_residuals["x"], trans=0)
+            else:
+                d_residuals["x"] = sl.lu_solve(self._lu, d_outputs["x"], trans=1)
+
     prob = om.Problem(reports=False)
     m = prob.model
     ivc = om.IndepVarComp()
@@ -1009,7 +1044,7 @@ def z0(spec):
     m.add_subsystem("c3", Mixed())
     m.connect("c2.b", "c3.b")
     m.connect("q", "c3.g")
-    m.add_subsystem("lin", om.LinearSystemComp(size=3))
+    m.add_subsystem("lin", LinSolve())
     m.connect("A", "lin.A")
     m.connect("c3.c", "lin.b")
     cyc = m.add_subsystem("cyc", om.Group())
